@@ -67,6 +67,10 @@ func (r *runner) opPublish(kv map[string]string) (string, string) {
 		return "harness-error " + err.Error(), ""
 	}
 	wasKnown := ti.known || contains(before.unmined, ti.name) > 0
+	viewBefore, err := r.walletView()
+	if err != nil {
+		return "harness-error " + err.Error(), ""
+	}
 	desc := r.ledgerDescendants(ti.name)
 	r.fc.mu.Lock()
 	r.fc.answers[ti.hash] = ans
@@ -124,6 +128,14 @@ func (r *runner) opPublish(kv map[string]string) (string, string) {
 		}
 		if !wasKnown && len(desc) == 1 && after.String() != before.String() {
 			viols = append(viols, fmt.Sprintf("C20 key=%s: failed broadcast of new %s changed the wallet: before {%s} after {%s}", key, ti.name, before, after))
+		}
+		if !wasKnown && len(desc) == 1 {
+			// the same sentence on the user-visible side (ListUnspent, lock table, balances), see walletview.go
+			viewAfter, verr := r.walletView()
+			if verr != nil {
+				return "harness-error " + verr.Error(), ""
+			}
+			viols = append(viols, r.refusedViewViolations("publishTransaction", "publish "+ti.name+" ("+cls+")", viewBefore, viewAfter, nil)...)
 		}
 		r.forget(ti.name)
 	case "mempool", "accepted":
